@@ -117,4 +117,4 @@ def run(run, P):
                 run.instance('R-RESTART-STATE', '%s: restarting the scan resets %s to %d' % (name, decl[v][0], decl[v][1]))
                 run.oblige('R-RESTART-STATE', True, '%s:%s:carried' % (name, decl[v][0]))
             solve(f, Env(), on_event, None, keys, R, key_fn=lambda e: (e.ts.get('dirty'), e.ts.get('at')), on_branch=on_branch)
-    run.require(n >= 1 or run.fixture_mode or run.cfg != 'base', 'R-RESTART-STATE: no scan that is restarted inside its own loop found (expected coap_option_check_critical)')
+    run.require_count(n >= 1 or run.fixture_mode or run.cfg != 'base', 'R-RESTART-STATE: no scan that is restarted inside its own loop found (expected coap_option_check_critical)')
